@@ -205,8 +205,16 @@ package codegen
 //@   mode bv
 //@   tags C12
 //@   requires [recv] b != nil
-//@   reset b keep builder options ib.arena
+//@   reset b keep builder options ib.arena requestedVersion
+//@   ensures [configured-version-restored] b.options.Version == b.requestedVersion && b.requestedVersion == old(b.requestedVersion)
 //@   nopanic
+//
+// Raising the version for one module (OpCopyLogical needs SPIR-V 1.4) must not
+// change what the backend was configured with.
+//@ func (*Backend).requireSpirvVersion14
+//@   mode bv
+//@   tags C12
+//@   ensures [configuration-kept] b.requestedVersion == old(b.requestedVersion)
 //
 //@ func (*ModuleBuilder).Reset
 //@   mode bv
